@@ -143,7 +143,9 @@ class SyncedList(SyncedCollection, MutableSequence):
                 # inserting at the beginning will require reconverting all
                 # elements of the data.
                 for i in range(min(len(self), len(data))):
-                    if data[i] == self._data[i]:
+                    # Equal values of a different type (1, True, 1.0) are
+                    # different JSON data and must be replaced.
+                    if type(data[i]) is type(self._data[i]) and data[i] == self._data[i]:
                         continue
                     if (
                         data[i] is not None
